@@ -4,6 +4,24 @@ use crate::core::{Ctx, PropCase};
 use crate::hexu::Case;
 
 pub mod c01;
+pub mod c02;
+pub mod c03;
+pub mod c04;
+pub mod c05;
+pub mod c06;
+pub mod c07;
+pub mod c08;
+pub mod c09;
+pub mod c10;
+pub mod c11;
+pub mod c12;
+pub mod c13;
+pub mod c14;
+pub mod c15;
+pub mod c16;
+pub mod c17;
+pub mod c18;
+pub mod pin;
 
 fn replay_as<C: PropCase>(ctx: &mut Ctx, case: &Case) -> Result<(), String> {
     let c = C::from_case(case)?;
@@ -11,22 +29,67 @@ fn replay_as<C: PropCase>(ctx: &mut Ctx, case: &Case) -> Result<(), String> {
     Ok(())
 }
 
+fn sv(v: &[&str]) -> Vec<String> {
+    v.iter().map(|s| s.to_string()).collect()
+}
+
 /// runs the workload of property `ctx.prop` for this shard; false if the id is unknown
 pub fn run(ctx: &mut Ctx) -> bool {
+    macro_rules! go {
+        ($m:ident, $floors:expr) => {{
+            ctx.rep.floors = $floors;
+            ctx.rep.rule = $m::RULE.to_string();
+            $m::run(ctx)
+        }};
+    }
     match ctx.prop.as_str() {
-        "C01" => {
-            ctx.rep.floors = c01::FLOORS.iter().map(|s| s.to_string()).collect();
-            ctx.rep.rule = c01::RULE.to_string();
-            c01::run(ctx)
-        }
+        "C01" => go!(c01, sv(c01::FLOORS)),
+        "C02" => go!(c02, sv(c02::FLOORS)),
+        "C03" => go!(c03, c03::floors()),
+        "C04" => go!(c04, sv(c04::FLOORS)),
+        "C05" => go!(c05, sv(c05::FLOORS)),
+        "C06" => go!(c06, sv(c06::FLOORS)),
+        "C07" => go!(c07, sv(c07::FLOORS)),
+        "C08" => go!(c08, c08::floors()),
+        "C09" => go!(c09, c09::floors()),
+        "C10" => go!(c10, c10::floors()),
+        "C11" => go!(c11, c11::floors()),
+        "C12" => go!(c12, c12::floors()),
+        "C13" => go!(c13, sv(c13::FLOORS)),
+        "C14" => go!(c14, c14::floors()),
+        "C15" => go!(c15, sv(c15::FLOORS)),
+        "C16" => go!(c16, sv(c16::FLOORS)),
+        "C17" => go!(c17, sv(c17::FLOORS)),
+        "C18" => go!(c18, sv(c18::FLOORS)),
         _ => return false,
     }
     true
 }
 
 pub fn replay(ctx: &mut Ctx, case: &Case) -> Result<(), String> {
+    // replays always journal (an abort must be attributable) and never sample
     match (ctx.prop.as_str(), case.kind.as_str()) {
         ("C01", "roundtrip") => replay_as::<c01::RoundTrip>(ctx, case),
+        ("C02", "sound") => replay_as::<c02::Sound>(ctx, case),
+        ("C03", "complete") => replay_as::<c03::Complete>(ctx, case),
+        ("C04", "soundp") => replay_as::<c04::SoundP>(ctx, case),
+        ("C05", "history") => replay_as::<c05::History>(ctx, case),
+        ("C05", "longrun") => replay_as::<c05::LongRun>(ctx, case),
+        ("C05", "misc") => replay_as::<c05::Misc>(ctx, case),
+        ("C06", "total") => replay_as::<c06::Total>(ctx, case),
+        ("C07", "enc") => replay_as::<c07::Enc>(ctx, case),
+        ("C08", "resync") => replay_as::<c08::Resync>(ctx, case),
+        ("C09", "agreep") => replay_as::<c09::AgreeP>(ctx, case),
+        ("C10", "trans") => replay_as::<c10::Trans>(ctx, case),
+        ("C11", "faults") => replay_as::<c11::Faults>(ctx, case),
+        ("C12", "probe") => replay_as::<c12::Probe>(ctx, case),
+        ("C13", "term") => replay_as::<c13::Term>(ctx, case),
+        ("C14", "chain") => replay_as::<c14::Chain>(ctx, case),
+        ("C15", "agree") => replay_as::<c15::Agree>(ctx, case),
+        ("C16", "cap") => replay_as::<c16::Cap>(ctx, case),
+        ("C17", "tile") => replay_as::<c17::Tile>(ctx, case),
+        ("C17", "tileio") => replay_as::<c17::TileIo>(ctx, case),
+        ("C18", "bufhist") => replay_as::<c18::Hist>(ctx, case),
         (p, k) => Err(format!("no replay handler for property {} case kind '{}'", p, k)),
     }
 }
